@@ -176,3 +176,18 @@ Proof.
     + vm_compute; reflexivity.
     + vm_compute; reflexivity.
 Qed.
+
+(* a channel op of #c cannot hand out a capability of another channel: `channel capability add #c plain #d,op`
+   stores "#c,#d,op" (a capability of #c), and the [grant] relation does not allow "#d,op" to appear *)
+Definition t_cross : str := [99; 104; 97; 110; 110; 101; 108; 32; 99; 97; 112; 97; 98; 105; 108; 105; 116; 121; 32; 97; 100; 100; 32; 35; 99; 32; 112; 108; 97; 105; 110; 32; 35; 100; 44; 111; 112].
+Definition c_dop : str := [35; 100; 44; 111; 112].          (* #d,op *)
+Definition c_cdop : str := [35; 99; 44; 35; 100; 44; 111; 112].         (* #c,#d,op *)
+Example ex_cross_channel_scoped :
+  (exists a', In a' (s_users (step s0 (OCmd E_adm t_cross))) /\ aid a' = 3%Z /\ caps a' = [c_cdop])
+  /\ grantb s0 E_adm t_cross 3%Z c_cdop = true
+  /\ grantb s0 E_adm t_cross 3%Z c_dop = false.
+Proof.
+  split; [|split; vm_compute; reflexivity].
+  remember (step s0 (OCmd E_adm t_cross)) as r eqn:R. vm_compute in R. subst r.
+  eexists. split; [simpl; right; right; left; reflexivity|]. split; vm_compute; reflexivity.
+Qed.
